@@ -49,7 +49,9 @@ void generate_math_utility_builtins(StringBuilder *sb) {
     sb_append(sb, "static double nl_cast_float_from_float(double x) { return x; }\n");
     sb_append(sb, "static void* nl_null_opaque() { return NULL; }\n");
     sb_append(sb, "static int64_t nl_cast_bool_to_int(bool x) { return x ? 1 : 0; }\n");
-    sb_append(sb, "static bool nl_cast_bool(int64_t x) { return x != 0; }\n\n");
+    sb_append(sb, "static bool nl_cast_bool(int64_t x) { return x != 0; }\n");
+    sb_append(sb, "static int64_t nl_cast_int_from_string(const char* s) { return s ? strtoll(s, NULL, 10) : 0; }\n");
+    sb_append(sb, "static bool nl_cast_bool_from_string(const char* s) { return s && s[0] != '\\0'; }\n\n");
 
     /* println function - uses _Generic for type dispatch */
     sb_append(sb, "static void nl_println(void* value_ptr) {\n");
